@@ -21,7 +21,7 @@ def _build(fn, layout=False):
         if layout:
             b.update({'c_sources': [os.path.join(gw, 'layout_parse_c.c')], 'entry': 'h_layout', 'min_obligations': n_layout})
             return b
-        b.update({'c_sources': [os.path.join(CONTRACTS, 'parse.c')], 'entry': 'h_' + fn, 'enforce': [f'w_{fn}/c_{fn}'],
+        b.update({'c_sources': [os.path.join(CONTRACTS, 'parse.c')], 'entry': 'h_' + fn, 'enforce': [f'w_{fn}/c_{fn}'], 'cdefs': [f'CANARY_{fn}'],
                   'loops_tpl': os.path.join(CONTRACTS, 'parse.loops.json.in')})
         if redirect:
             # (a recursive call of the function under contract is replaced by DFCC itself)
@@ -53,6 +53,7 @@ def prod_groups():
         def build(gw, rl):
             b = _build(fn)(gw, rl)
             b['c_sources'] = [os.path.join(CONTRACTS, 'parse_prod.c')]
+            b['cdefs'] = []
             b['entry'] = f'h_{fn}_prod'
             b['enforce'] = [f'w_{fn}/c_{fn}_prod']
             out = []
